@@ -24,7 +24,7 @@ document element is refused by `read_event`, which keeps the nesting depth, sinc
 normalises the line ends of every text piece and CDATA section before references are resolved, since d365e05;
 attributes: `SerializeContent::attributes` / `start_of` / `attr_value` of `xml/ser.rs`, `Deserializer::attribute` of
 `xml/de.rs` over quick-xml's attribute iterator, since 680006e; `GetBucketLocationOutput` is read from exactly one
-`LocationConstraint` element, since d00ca17).
+`LocationConstraint` element, since d00ca17; comments: quick-xml's `check_comments`, since ce2599c).
 The lookahead state `peeked` / `next_slot` of `Deserializer` is the head of the remaining event list here:
 `peek_event` = look at the head, `consume_peeked` / `next_event` = drop it; `Empty` is expanded by `deEvents`.
 The field `start` of `Deserializer` (the start tag that was entered last, since 680006e) is read by generated code only
@@ -795,6 +795,14 @@ def bangEnd (ok : Bytes → Bool) : (seenRev : Bytes) → Bytes → Option (Byte
     if b = cGt && ok seen then some (seen.reverse, bs)
     else bangEnd ok (b :: seen) bs
 
+/-- the search of `ReaderState::emit_bang` under `Config::check_comments` (quick-xml `reader/state.rs`): `memchr` for
+a `-` of the comment text whose next byte in the buffer is a `-` too. For the last byte of the text that next byte
+is the first `-` of the closing `-->`: the function is applied to the text followed by one `-`. -/
+def dashDash : Bytes → Bool
+  | 45 :: 45 :: _ => true
+  | _ :: r => dashDash r
+  | [] => false
+
 /-- `BangType::DocType(balance)::parse` -/
 def doctypeEnd : (balance : Nat) → (seenRev : Bytes) → Bytes → Option (Bytes × Bytes)
   | _, _, [] => none
@@ -827,7 +835,12 @@ def markup (inp : Bytes) (stack : List Bytes) : Option (QEv × Bytes × List Byt
     | 45 :: _ =>                                                   -- `<!-`  comment
       match bangEnd (fun seen => seen.length > 4 && startsWith [45, 45] seen) [] inp with
       | none => none
-      | some (buf, rest) => if startsWith [33, 45, 45] buf then some (.comment, rest, stack) else none
+      | some (buf, rest) =>
+        if startsWith [33, 45, 45] buf then
+          -- `Config::check_comments` (switched on by `Deserializer::new` since ce2599c): the text is `buf[3..len-2]`
+          if dashDash ((buf.drop 3).dropLast.dropLast ++ [45]) then none   -- IllFormed(DoubleHyphenInComment)
+          else some (.comment, rest, stack)
+        else none
     | c :: _ =>
       if c = 68 || c = 100 then                                    -- `<!D` / `<!d`  DOCTYPE
         match doctypeEnd 0 [] inp with
